@@ -44,6 +44,8 @@ struct http_connection {
 	unsigned int status_code;
 	bool is_local_connection;
 	unsigned int compression_level;
+	/* Set by an url handler's create() if it allocated a context that must be released with the connection. */
+	void (*free_context)(struct http_connection *connection);
 };
 
 struct http_connection *alloc_http_connection(void);
